@@ -3,6 +3,7 @@ import re
 import core
 from valueset import VS, param_root, field_root
 from rules.common import arm_context, enum_switch_info, edge_variants, site, single_defs, resolve_value
+from core import has_origin
 
 
 def variant_outcome(b):
@@ -291,3 +292,43 @@ def rfc_id_tables(ctx, P, only=None):
         clash = sorted(n for n, d in got.items() if n not in want and d in want.values())
         ctx.check('%s:ids:%s' % (P, adt.split('::')[-1]), 'R-table', 'wire ids of %s equal the RFC 9580 registry' % adt.split('::')[-1], not bad and not clash, function=adt,
                   table=got, missing=(bad or clash) or None)
+
+
+def bit_counts_round_up(ctx, P):
+    """A count of bits becomes a count of octets by rounding UP (`(n + 7) / 8`): an MPI of 521 bits has 66 octets, a P-521 coordinate
+    too.  Every division by 8 / shift by 3 whose operand derives from a bit count that need not be a multiple of 8 - a count read from
+    the input, or a crate accessor whose table of values contains one that is not (ECCCurve::nbits: 521) - has the `+ 7` in it."""
+    from rules.common import single_defs
+    n = 0
+    bitfn = {}
+    for p, r in ctx.f.bodies.items():
+        if re.search(r'::(nbits|bits|bit_len|bit_size|bit_length)$', p) and '::tests::' not in p:
+            try:
+                tab = variant_to_int_table(ctx.wrap(r))
+            except Exception:
+                tab = {}
+            vals = [v for v in tab.values() if isinstance(v, int)]
+            if any(v % 8 for v in vals) or not vals:
+                bitfn[p] = vals
+    for p, r in sorted(ctx.f.bodies.items()):
+        if '::tests::' in p or r.get('derived'):
+            continue
+        b = ctx.wrap(r)
+        m = 0
+        for i, k, st in b.stmts(lambda st: st['r']['k'] == 'bin' and st['r']['op'] in ('Div', 'Shr', 'ShrUnchecked')):
+            o = st['r']['o']
+            c = o[1]['k'].get('v') if 'k' in o[1] else None
+            if not ((st['r']['op'] == 'Div' and c == 8) or (st['r']['op'] != 'Div' and c == 3)):
+                continue
+            og = b.operand_origins(o[0])
+            from_bits = [x for x in og if x.startswith('call:') and (x[5:] in bitfn or re.search(r'::(nbits|bit_len|bit_size|bit_length)$', x))]
+            from_wire = has_origin(og, r'call:.*BufReadParsing::read_(be_)?u(16|32)$') and not has_origin(og, r'op:(BitAnd|Shl)$')
+            if not from_bits and not from_wire:
+                continue
+            n += 1
+            m += 1
+            ok = has_origin(og, r'const:7:')
+            ctx.check('%s:bits-to-octets-round-up:%s#%d' % (P, p, m), 'R-table', 'the bit count converted to octets in %s is rounded up (+ 7 before / 8)' % '::'.join(p.split('::')[-2:]),
+                      ok, function=p, site='%s:%s' % (r['file'], st['ln']),
+                      missing=None if ok else 'a bit count (%s) is divided by 8 without adding 7 first: a count that is not a multiple of 8 (521) loses its last octet' % (from_bits or ['read from the input'])[0])
+    ctx.floor(P + ':bits-to-octets:floor', 'conversions of a bit count to an octet count', n, 1)
